@@ -202,6 +202,8 @@ VERSIONS = {
     "T07:mut:choicedefault": ("T07", lambda t: _find_choice(t, "CH").defaults.__setitem__(1, ("M1", None))),
     "T16:mut:fwd2": ("T16", lambda t: _cfg(t, "EN").defaults.__setitem__(0, ("n", None)) or _cfg(t, "X").defaults.__setitem__(0, ("7", None))),
     "T16:mut:fwd1": ("T16", lambda t: _cfg(t, "X").defaults.__setitem__(0, ("7", None))),
+    # an option defined in two places (differently gated) whose default changes
+    "E_multidef:mut:default": ("E_multidef", lambda t: _find(t, "Y")[0][0].defaults.__setitem__(0, ("4", None))),
     "T04:mut:hexdefault": ("T04", lambda t: _cfg(t, "HX").defaults.__setitem__(0, ("0x30", None))),
     "T04:mut:floatdefault": ("T04", lambda t: _cfg(t, "FL").defaults.__setitem__(1, ("3.5", None))),
 }
@@ -221,7 +223,7 @@ def resolve(tid):  # noqa: F811
         from . import templates
 
         base, fn = VERSIONS[tid]
-        t = _mut(templates.get(base), fn)
+        t = _mut(edges.get(base) if base.startswith("E_") else templates.get(base), fn)
         t.id = tid
         return t
     return _orig_resolve(tid)
